@@ -93,6 +93,11 @@ def judge(case, res) -> list[str]:
 def check(run: Run, ctx) -> None:
     known = findings.Known(run, PROP)
     _parser.run(run, ctx, PROP, known)
+    # annotation level: required <-> Optional, union members (theorems claimed from Pog.ResolveProps)
+    from . import _generic as g
+    g.run_corr(run, ctx, "vf.corr.resolve", "Resolve (OpenAPISchemaResolver vs Pog.Resolve: required/optional, union members)", quick=0.3, thorough=3.0)
+    g.run_oracle(run, ctx, g.Informational(known), "vf.corr.resolve", "resolver oracle (optional = not required; union members distinct and complete)",
+                 {"resolve.named_no_stem_no_import": "-hazard", "resolve.string_enum_no_import": "-hazard"}, quick=0.2, thorough=2.0)
     run.cov["rule"] = (run.cov.get("rule") or "") + ("[e2e dataclass level] seeded documents -> generated models imported in a fresh interpreter -> dataclasses.fields + Meta maps compared with "
                        "the document's own/inherited properties (wire key, required, structural kind); distinct by document; non-trivial when >= 2 object schemas")
     cases = []
